@@ -7,7 +7,8 @@ import JsonV.Props.C11
 import JsonV.Props.C10
 
 namespace JsonV.Lemmas.CanonAtom
-open JsonV JsonV.Fmt JsonV.Canon JsonV.Model JsonV.Model.Utf8 JsonV.Model.Quote JsonV.Spec.StringSpec
+open JsonV JsonV.Canon JsonV.Model JsonV.Model.Utf8 JsonV.Model.Quote JsonV.Spec.StringSpec
+open JsonV.Fmt hiding strOK respell
 open JsonV.Model.Number
 
 /-! ### strings -/
